@@ -146,4 +146,17 @@ def staleT : OTbl :=
 example : (oGetRowValues staleT 0).1 = [1, 1, 1, 0] ∧ rowValuesFresh staleT.t 0 = [0, 1, 0, 0] := by decide +kernel
 example : (oGetValue staleT 1 0).1 = 1 ∧ getValue staleT.t 2 0 = 0 ∧ (oGetValue staleT 2 0).1 = 1 := by decide +kernel
 
+/-! ### known finding C02-F3: the `repeated` setter of a live row
+
+`t.get_row(y, clone=False).repeated = n` changes the XML but not the position map of the table
+object the caller holds: the table goes on answering with the old height.  Counter-example
+(model = code, replayed on the implementation by `harness/c02.py`, classifier
+`live_repeated_setter`): a run of 7 rows set to 3 through its live wrapper. -/
+def t7 : Tbl := parse [(0, 1)] [([(1, 1)], 7), ([(2, 1)], 1)]
+
+theorem live_repeated_setter_cex :
+    (oLiveRowRepeated (parsed t7) 5 3).map (fun (o : OTbl) => (Table.height o.t, Table.height (parse o.t.cols.runs o.t.rows.runs))) = some (8, 4) ∧
+    (oLiveRowRepeated (parsed t7) 5 3).map (fun (o : OTbl) => ((oGetValue o 0 3).1, getValue (parse o.t.cols.runs o.t.rows.runs) 0 3)) = some (1, 2) := by
+  decide +kernel
+
 end Odf.C02
